@@ -18,7 +18,7 @@ from common import Check, run_impl, standard_proof_step, TRUSTED_COMMON
 
 IMPORTS = "From XV Require Import Base.Str Base.Eqb Model.Bind Model.EventGen Model.DictCodec Model.DictCodecCorr."
 SLICE_MIX = [("F1",), ("F1",), ("F1", "F2"), ("F1", "F2", "F3"), ("F1", "F2", "F3")]
-CHECKS = ["negb_ambiguous", "agree_encode", "agree_decode", "oracle_roundtrip", "oracle_strict_json", "is_typed", "in_guard",
+CHECKS = ["in_proved_slice", "theorem_instance", "negb_ambiguous", "agree_encode", "agree_decode", "oracle_roundtrip", "oracle_strict_json", "is_typed", "in_guard",
           "not_class 0", "not_class 1", "not_class 2", "not_class 4", "not_class 5", "not_class 7", "not_class 10", "not_class 11",
           "not_class 98"]
 CLASS_NAMES = {"not_class 1": "json-key-collision", "not_class 2": "null-decodes-to-default",
@@ -156,6 +156,9 @@ def run(ck: Check):
             ck.failure("corr-encode", "DictCodec.encode and DictEncoder.encode disagree", describe(models, res, mi, ci, f"c04_e{mi}_{ci}"))
         for mi, ci in v["agree_decode"][:3]:
             ck.failure("corr-decode", "DictCodec.decode and DictDecoder.decode disagree", describe(models, res, mi, ci, f"c04_d{mi}_{ci}"))
+        for mi, ci in v["theorem_instance"][:3]:
+            ck.failure("theorem-instance", "the model's decode(encode(o)) differs from the promised object inside the proved slice",
+                       describe(models, res, mi, ci, f"c04_t{mi}_{ci}"))
         for mi, ci in v["not_class 98"][:3]:
             ck.failure("roundtrip-differs", "decode(encode(o)) differs from the promised object inside the theorem's guard",
                        describe(models, res, mi, ci, f"c04_r{mi}_{ci}"))
@@ -200,6 +203,7 @@ def run(ck: Check):
     ck.cov["rule"] = "distinct encoded dictionaries (repr)"
     ck.cov["typed_cases"] = len(typed)
     ck.cov["cases_inside_guard"] = len(inguard)
+    ck.cov["cases_inside_proved_slice"] = len([x for x in gen if x not in set(v["in_proved_slice"])])
     ck.cov["decode_set_order_dependent"] = len(v["not_class 10"])
     ck.cov["input_distribution"] = {"models": n_models, "by_slices": by_slice, "by_factory_and_document": by_fac,
                                     "models_unsupported": len(unsupported), "cases_skipped": len(skipped),
